@@ -316,6 +316,37 @@ fn gen<'a>(guests: &'a [Guest], thorough: bool) -> impl Fn(&mut EnumCtx) + Sync 
                 }
             }
         }
+        // ---- instruction fetch that would have to continue in the NEXT area: the first bytes of
+        // `mov rax, 0x2a` end an executable area, the rest starts an adjacent area whose mask
+        // varies; executing it needs X on every byte fetched
+        for mask in 0..8u32 {
+            for split in [1usize, 3, 6] {
+                if !e.next() {
+                    continue;
+                }
+                e.describe("fetch-straddle", &format!("{} split {split}", mask_name(mask)));
+                let instr = [0x48u8, 0xC7, 0xC0, 0x2A, 0x00, 0x00, 0x00];
+                let mut ax = machine(&[0x90], 3, 3);
+                ax.mem_init_area(0x70_0000, instr[..split].to_vec()).unwrap();
+                ax.mem_prot(0x70_0000, 5).unwrap();
+                let mut rest = instr[split..].to_vec();
+                rest.resize(0x20, 0x90);
+                ax.mem_init_area(0x70_0000 + split as u64, rest).unwrap();
+                ax.mem_prot(0x70_0000 + split as u64, mask).unwrap();
+                ax.reg_write_64(SR::RIP, 0x70_0000).unwrap();
+                ax.reg_write_64(SR::RAX, 0x77).unwrap();
+                let out = crate::emu::step(&mut ax);
+                e.outcome(crate::common::fnv64(format!("straddle{mask}/{split}{}", out.class()).as_bytes()));
+                e.state(11_000 + mask as u64 * 8 + split as u64);
+                e.count("transitions", 1);
+                let w = || json!({"mask_of_following_area": mask_name(mask), "split": split});
+                match out {
+                    StepOut::Panic(p) => e.finding(&format!("perm|fetch-straddle|panic@{}", p.tag()), || format!("fetch across two areas (second with mask {}) panicked", mask_name(mask)), w),
+                    StepOut::Ok(_) if mask & 4 == 0 => e.finding("perm|fetch-straddle|fetch-without-X", || format!("an instruction whose last {} byte(s) lie in an area with mask {} was fetched and executed (RAX {:#x})", 7 - split, mask_name(mask), ax.reg_read_64(SR::RAX).unwrap_or(0)), w),
+                    _ => {}
+                }
+            }
+        }
         // ---- configurations
         if e.next() {
             e.describe("config", "constructor code area");
